@@ -331,6 +331,11 @@ func (qr *QR) SolveVecTo(dst *VecDense, trans bool, b Vector) error {
 
 	// The Solve implementation is non-trivial, so rather than duplicate the code,
 	// instead recast the VecDenses as Dense and call the matrix code.
+	if trans {
+		dst.reuseAsNonZeroed(r)
+	} else {
+		dst.reuseAsNonZeroed(c)
+	}
 	bm := Matrix(b)
 	if rv, ok := b.(RawVectorer); ok {
 		bmat := rv.RawVector()
@@ -339,11 +344,6 @@ func (qr *QR) SolveVecTo(dst *VecDense, trans bool, b Vector) error {
 		}
 		b := VecDense{mat: bmat}
 		bm = b.asDense()
-	}
-	if trans {
-		dst.reuseAsNonZeroed(r)
-	} else {
-		dst.reuseAsNonZeroed(c)
 	}
 	return qr.SolveTo(dst.asDense(), trans, bm)
 }
